@@ -26,6 +26,8 @@ Two judgements per scenario:
   S4 oracle          implementation only, written from the property statement (see `judge`).
 """
 import gc
+from harness import c09_locate
+from harness.c09_locate import Reach
 import itertools
 import os
 import shutil
@@ -67,6 +69,7 @@ RULE = ('endpoints-parse: rendered well-formed address lists plus mutations (dro
         'entry (parse)')
 
 REACTIONS = ['n', 'c', 'u', 'r', 'p', 'x']
+_UNIQUE = [0]
 XML_HEAD = ('<!DOCTYPE node PUBLIC "-//freedesktop//DTD D-BUS Object Introspection 1.0//EN" '
             '"http://www.freedesktop.org/standards/dbus/1.0/introspect.dtd">\n')
 
@@ -164,7 +167,8 @@ class Mods:
         import txdbus.client as client
         import txdbus.protocol
         from txdbus import endpoints, error, interface, message
-        txdbus.protocol._is_linux = False
+        if hasattr(txdbus.protocol, '_is_linux'):
+            txdbus.protocol._is_linux = False      # server-side credential lookup; irrelevant to a client
         self.tie, self.client, self.message, self.error = tie, client, message, error
         self.interface, self.endpoints = interface, endpoints
         self.Failure, self.MemoryReactorClock, self.StringTransport = Failure, MemoryReactorClock, StringTransport
@@ -180,8 +184,12 @@ class Mods:
             """MemoryReactorClock whose DelayedCalls report their cancellation."""
             on_cancel = None
 
+            on_call_later = None
+
             def callLater(self, delay, f, *a, **kw):
                 dc = MemoryReactorClock.callLater(self, delay, f, *a, **kw)
+                if self.on_call_later is not None:
+                    self.on_call_later(dc)
                 orig = dc.canceller
 
                 def canceller(c):
@@ -213,6 +221,11 @@ class Mods:
                 self._maybe_raise()
                 return c
         self.ObservedClock = ObservedClock
+        # the module global(s) of txdbus.client through which it reaches the reactor (`reactor` today)
+        from twisted.internet import reactor as real_reactor
+        self.reactor_names = [n for n, v in vars(client).items() if v is real_reactor] or ['reactor']
+        self.DBusClientConnection = client.DBusClientConnection
+        self.loc = c09_locate.Locator(self)
 
 
 # Reactions beyond the model's alphabet, exercised by the implementation-only stream `lifecycle-extended`:
@@ -258,17 +271,17 @@ class ProxyCb:
         run.fx.append('pc:%d:%d' % (self.pid, self.cid))
         run.cb_runs[self.cid] = run.cb_runs.get(self.cid, 0) + 1
         if self.r == 'c':
-            run.issue_call(proxy.objHandler.conn, None, 'n', during_loss=True)
+            run.issue_call(run.proto, None, 'n', during_loss=True)
         elif self.r == 'u':
             proxy.cancelNotifyOnDisconnect(self)
         elif self.r == 'r':
             proxy.notifyOnDisconnect(ProxyCb(run, self.pid, run.new_cb(late=True), 'n'))
         elif self.r == 'p':
-            run.late_proxy(proxy.objHandler.conn)
+            run.late_proxy(run.proto)
         elif self.r == 'x':
             raise VerifCallbackError('disconnect callback #%d of proxy #%d raises' % (self.cid, self.pid))
         elif self.r in EXTENDED:
-            run.ext_react(self.r, proxy.objHandler.conn, self, self.pid)
+            run.ext_react(self.r, run.proto, self, self.pid)
 
 
 class Run:
@@ -308,6 +321,7 @@ class Run:
         self.att = []
         self.af_count = 0
         self.dropped_in_loss = set()
+        self.loss_thresholds = None
         self.cancelled_in_loss = set()
 
     # -- helpers ---------------------------------------------------------------------------------------------
@@ -411,6 +425,11 @@ class Run:
             self.idx_serial[i] = s
             self.calls[i] = {'kind': kind, 'timed': timed, 'done': [], 'late': late, 'r': r}
             out.append(i)
+        # the DelayedCalls made while this call was issued are its timers
+        dcs, self.new_dcs[:] = list(self.new_dcs), []
+        if len(out) == 1:
+            for dc in dcs:
+                self.dc_idx[id(dc)] = (dc, out[0])
         return out
 
     def attach(self, d, i, r):
@@ -482,13 +501,13 @@ class Run:
                 later = [p for p in alive if pid is not None and p > pid]
                 p = min(later) if later else max(alive)      # preferably the next proxy the walk would visit
                 self.dropped_in_loss.add(p)
-                self.op_drop({'p': p})
+                self.op_drop({'p': p, 'during_loss': True})
         elif kind == 'k':
             if pid is None:
-                lst, owner = getattr(conn, '_dcCallbacks', []), conn
+                lst, owner = self.M.loc.conn_callbacks(conn) or [], conn
             else:
                 owner = self.proxies[pid]['obj']
-                lst = owner._disconnectCBs or []
+                lst = self.M.loc.proxy_callbacks(owner) or []
             others = [c for c in lst if c is not cb and hasattr(c, 'cid')]
             if others:
                 target = others[-1]
@@ -496,6 +515,7 @@ class Run:
                 owner.cancelNotifyOnDisconnect(target)
 
     def snapshot_at_loss(self):
+        self.loss_thresholds = (len(self.serial_idx), self.next_cb, self.next_proxy)
         self.at_loss = {
             'outstanding': sorted(i for i, c in self.calls.items() if not c['done']),
             'completed': sorted(i for i, c in self.calls.items() if c['done']),
@@ -520,8 +540,12 @@ class Run:
                 if st.get('sync'):
                     self.reactor.sync_fail[k] = make_failure_exc(M, st.get('exc'))
                 k += 1
-        self.reactor.on_cancel = lambda dc: self.fx.append('tc:%d' % self.serial_idx.get(dc.args[0] if dc.args else None, -1))
-        M.client.reactor = self.reactor
+        self.new_dcs = []
+        self.dc_idx = {}            # id(DelayedCall) -> (DelayedCall, issue index of the call it belongs to)
+        self.reactor.on_call_later = self.new_dcs.append
+        self.reactor.on_cancel = lambda dc: self.fx.append('tc:%d' % self.dc_idx.get(id(dc), (None, -1))[1])
+        for n in M.reactor_names:
+            setattr(M.client, n, self.reactor)
         try:
             d = M.client.connect(self.reactor, self.sc['address'])
         except Exception as e:      # noqa: BLE001
@@ -560,7 +584,7 @@ class Run:
         self.wp = self.cur_factory.buildProtocol(None)
         self.transport = M.UnixStringTransport() if self.cur_unix else M.StringTransport()
         self.wp.makeConnection(self.transport)
-        self.proto = self.wp._wrappedProtocol
+        self.proto = c09_locate.wrapped_protocol(self.wp, M.DBusClientConnection)
         self.phase = 'authenticating'
 
     def op_auth(self, st):
@@ -644,7 +668,6 @@ class Run:
         self.next_proxy += 1
         self.proxies[p] = {'obj': obj, 'ref': weakref.ref(obj), 'explicit': explicit, 'key': key, 'form': form,
                            'cbs': [], 'alive': True, 'cb_ids': []}
-        obj._verif_id = p
         return p
 
     def op_proxy_explicit(self, st):
@@ -666,8 +689,8 @@ class Run:
     def op_proxy_introspect(self, st):
         M = self.M
         key, form = st['key'], st['form']
-        name = 'org.example.U%d' % key
-        M.interface.DBusInterface.knownInterfaces.pop(name, None)
+        _UNIQUE[0] += 1      # a name no earlier scenario can have made known (no reach into the interface cache)
+        name = 'org.example.U%d_n%d' % (key, _UNIQUE[0])
         arg = {'none': None, 'name': name, 'namelist': [name]}[form]
         d = self.proto.getRemoteObject('org.example.B%d' % key, '/org/example/o%d' % key, arg)
         new = self.map_new_serials('introspect', False, 'n', False)
@@ -677,6 +700,7 @@ class Run:
         i = new[0]
         self.calls[i]['key'] = key
         self.calls[i]['form'] = form
+        self.calls[i]['iface_name'] = name
 
         def ok(prox):
             self.calls[i]['done'].append('ok')
@@ -716,9 +740,12 @@ class Run:
         if rec is None or rec['obj'] is None:
             self.unexpected.append('operation on proxy #%d which does not exist' % st['p'])
             return
-        rec['cb_ids'] = [c.cid for c in (rec['obj']._disconnectCBs or [])]
+        lst = self.M.loc.proxy_callbacks(rec['obj'])
+        rec['cb_ids'] = None if lst is None else [getattr(c, 'cid', -1) for c in lst]
         rec['obj'] = None
         rec['alive'] = False
+        if st.get('during_loss'):
+            return          # the library may legitimately hold the proxy while it walks its registry
         if rec['ref']() is not None:
             gc.collect()
         if rec['ref']() is not None:
@@ -731,8 +758,8 @@ class Run:
         if not ok:
             return M.message.ErrorMessage('org.example.Error.Failed', serial, body=['no'], signature='s').rawMessage
         if c['kind'] == 'introspect':
-            xml = (XML_HEAD + '<node name="/org/example/o%d"><interface name="org.example.U%d">'
-                   '<method name="m"/></interface></node>' % (c['key'], c['key']))
+            xml = (XML_HEAD + '<node name="/org/example/o%d"><interface name="%s">'
+                   '<method name="m"/></interface></node>' % (c['key'], c['iface_name']))
             return M.message.MethodReturnMessage(serial, body=[xml], signature='s').rawMessage
         return M.message.MethodReturnMessage(serial).rawMessage
 
@@ -747,8 +774,8 @@ class Run:
         self.deliver(data)
 
     def op_expire(self, st):
-        serial = self.idx_serial[st['i']]
-        dc = self.proto._pendingCalls[serial][1]
+        mine = [dc for dc, i in self.dc_idx.values() if i == st['i']]
+        dc = mine[0] if mine else None
         live = self.reactor.getDelayedCalls()
         if dc is None or dc not in live or any(o.getTime() < dc.getTime() for o in live if o is not dc):
             self.unexpected.append('expire of a timer that is not the earliest live one')
@@ -772,8 +799,7 @@ class Run:
     def timer_indices(self):
         out = []
         for dc in self.reactor.getDelayedCalls():
-            serial = dc.args[0] if dc.args else None
-            out.append(self.serial_idx.get(serial, -1))
+            out.append(self.dc_idx.get(id(dc), (None, -1))[1])
         return sorted(out)
 
     def state(self):
@@ -782,19 +808,25 @@ class Run:
             return ','.join(str(x) for x in l) or '-'
         pc = getattr(self.proto, '_pendingCalls', None) or {}
         pend = ','.join('%d%s' % (self.serial_idx.get(s, -1), 't' if v[1] else '') for s, v in pc.items()) or '-'
-        dcs = getattr(self.proto, '_dcCallbacks', None) or []
-        reg = []
-        oh = getattr(self.proto, 'objHandler', None)
-        if oh is not None:
-            reg = [getattr(p, '_verif_id', -1) for p in list(oh._weakProxies.values())]
+        loc = self.M.loc
+        # tables behind private names: found by behaviour (c09_locate); '?' = not reachable, left out of the comparison
+        dcs = loc.conn_callbacks(self.proto) if self.proto is not None else []
+        dc_s = '?' if dcs is None else nats(getattr(c, 'cid', -1) for c in dcs)
+        reg = loc.registry(self.proto) if self.proto is not None else []
+        by_obj = {id(rec['obj']): p for p, rec in self.proxies.items() if rec['obj'] is not None}
+        reg_s = '?' if reg is None else nats(by_obj.get(id(x), -1) for x in reg)
         prox = []
         for p in sorted(self.proxies):
             rec = self.proxies[p]
-            ids = [c.cid for c in (rec['obj']._disconnectCBs or [])] if rec['obj'] is not None else rec['cb_ids']
-            prox.append('%d%s[%s]' % (p, 'a' if rec['alive'] else 'd', '.'.join(str(c) for c in ids)))
+            if rec['obj'] is not None:
+                lst = loc.proxy_callbacks(rec['obj'])
+                ids = None if lst is None else [getattr(c, 'cid', -1) for c in lst]
+            else:
+                ids = rec['cb_ids']
+            prox.append('%d%s[%s]' % (p, 'a' if rec['alive'] else 'd',
+                                      '?' if ids is None else '.'.join(str(c) for c in ids)))
         return ('fired=%s pend=%s timers=%s dc=%s reg=%s prox=%s'
-                % (','.join(self.fired) or '-', pend, nats(self.timers_now), nats(getattr(c, 'cid', -1) for c in dcs),
-                   nats(reg), ','.join(prox) or '-'))
+                % (','.join(self.fired) or '-', pend, nats(self.timers_now), dc_s, reg_s, ','.join(prox) or '-'))
 
 
 # Every way an endpoint's connect Deferred can fail is an unreachable address: (model kind, exception).
@@ -835,10 +867,11 @@ def cut_at(data, permille):
 
 
 def execute(M, sc):
-    known = M.interface.DBusInterface.knownInterfaces
-    saved = dict(known)
-    saved_reactor = M.client.reactor
+    known = getattr(M.interface.DBusInterface, 'knownInterfaces', None)     # documented class-level cache (optional)
+    saved = dict(known) if isinstance(known, dict) else None
+    saved_reactor = {n: getattr(M.client, n, None) for n in M.reactor_names}
     run = Run(M, sc)
+    run.reach = None
     try:
         run.start()
         if run.parse_error is None:
@@ -850,10 +883,14 @@ def execute(M, sc):
             run.final = run.state()
             run.fx_end = list(run.fx)
             run.finish()
+    except Reach as e:
+        run.reach = str(e)
     finally:
-        known.clear()
-        known.update(saved)
-        M.client.reactor = saved_reactor
+        if saved is not None:
+            known.clear()
+            known.update(saved)
+        for n, v in saved_reactor.items():
+            setattr(M.client, n, v)
     return run
 
 
@@ -904,18 +941,80 @@ def model_line(sc):
     return 'life ' + hexs(str(os.getpid())) + ' ' + hexs(sc['address']) + ''.join(' ' + t for t in toks)
 
 
-def canon_view(view):
+def canon_view(view, thr=None):
     """Order of effects is compared only where the statement orders them: the connection attempts and the connect
-    Deferred (in sequence); everything else as a multiset; then the final tables."""
+    Deferred (in sequence); everything else as a multiset; then the final tables.  Identities handed out WHILE
+    connectionLost runs (late calls, callbacks, proxies: ids >= the counters at the loss, `thr`) depend on the order in
+    which the library happens to visit its tables: they are all written `L`."""
     if view is None or ' | ' not in view:
         return view
+    big = 10 ** 9
+    tc, tcb, tp = thr if thr else (big, big, big)
+
+    def L(x, t):
+        return 'L' if x.isdigit() and int(x) >= t else x
     log, state = view.split(' | ', 1)
-    toks = [t for t in log.split(' ') if t]
-    # getRemoteObject's Deferred may fail with the loss reason itself or with IntrospectionFailed wrapping it
-    toks = [t[:-len('introspectionFailed')] + 'lost' if t.startswith('er:') and t.endswith(':introspectionFailed') else t
-            for t in toks]
+    toks = []
+    for t in log.split(' '):
+        if not t:
+            continue
+        f = t.split(':')
+        if f[0] == 'er' and f[-1] == 'introspectionFailed':
+            f[-1] = 'lost'   # getRemoteObject's Deferred may fail with the loss itself or IntrospectionFailed wrapping it
+        if f[0] in ('er', 'ok', 'tc') and len(f) >= 2:
+            f[1] = L(f[1], tc)
+        elif f[0] == 'cc' and len(f) == 2:
+            f[1] = L(f[1], tcb)
+        elif f[0] == 'pc' and len(f) == 3:
+            f[1], f[2] = L(f[1], tp), L(f[2], tcb)
+        toks.append(':'.join(f))
     seq = [t for t in toks if t.startswith('at:') or t.startswith('cf:')]
-    return ' '.join(seq) + ' || ' + ' '.join(sorted(toks)) + ' | ' + state
+    st = []
+    for t in state.split(' '):
+        k, _, v = t.partition('=')
+        if v not in ('-', '?', ''):
+            if k == 'pend':
+                v = ','.join(sorted(('L' + ('t' if x.endswith('t') else '')) if L(x.rstrip('t'), tc) == 'L' else x
+                                    for x in v.split(',')))
+            elif k == 'timers':
+                v = ','.join(sorted(L(x, tc) for x in v.split(',')))
+            elif k == 'dc':
+                v = ','.join(L(x, tcb) for x in v.split(','))
+            elif k == 'reg':
+                # the registry is a set of live proxies: which of them are in it is compared, not its internal order
+                v = ','.join(sorted((L(x, tp) for x in v.split(',')), key=lambda x: (len(x), x)))
+            elif k == 'prox':
+                ents = []
+                for e in v.split(','):
+                    head, _, rest = e.partition('[')
+                    cbs = rest.rstrip(']')
+                    pid, flag = head[:-1], head[-1:]
+                    cbs = '.'.join(L(c, tcb) for c in cbs.split('.')) if cbs not in ('', '?') else cbs
+                    ents.append((L(pid, tp), flag, cbs))
+                early = [e for e in ents if e[0] != 'L']
+                late = sorted(e for e in ents if e[0] == 'L')
+                v = ','.join('%s%s[%s]' % e for e in early + late)
+        st.append(k + '=' + v if _ else t)
+    return ' '.join(seq) + ' || ' + ' '.join(sorted(toks)) + ' | ' + ' '.join(st)
+
+
+def mask_unreachable(model, impl):
+    """Tables the harness could not reach print as '?' on the implementation side: leave them out on both sides."""
+    if model is None or ' | ' not in model or ' | ' not in impl:
+        return model
+    ml, ms = model.split(' | ', 1)
+    istate = dict(t.split('=', 1) for t in impl.split(' | ', 1)[1].split(' ') if '=' in t)
+    out = []
+    for t in ms.split(' '):
+        k, _, v = t.partition('=')
+        iv = istate.get(k, '')
+        if iv == '?':
+            v = '?'
+        elif k == 'prox' and '?' in iv:
+            import re
+            v = re.sub(r'\[[^\]]*\]', '[?]', v)
+        out.append(k + '=' + v)
+    return ml + ' | ' + ' '.join(out)
 
 
 def model_view(line):
@@ -932,7 +1031,11 @@ def model_view(line):
 def impl_view(run):
     if run.parse_error is not None:
         return 'parse-err ' + run.parse_error
-    return ' '.join(run.fx_end) + ' | ' + run.final
+    final = run.final
+    if '[?]' in final:
+        import re
+        final = ' '.join(re.sub(r'\[[^\]]*\]', '[?]', t) if t.startswith('prox=') else t for t in final.split(' '))
+    return ' '.join(run.fx_end) + ' | ' + final
 
 
 # ----------------------------------------------------------------------------------------------------------------
@@ -1471,8 +1574,9 @@ def parse_impl(M, case):
                 os.environ.pop(k, None)
             else:
                 os.environ[k] = v
+        reactor = M.MemoryReactorClock()
         try:
-            eps = M.endpoints.getDBusEndpoints(M.MemoryReactorClock(), case['addr'])
+            eps = M.endpoints.getDBusEndpoints(reactor, case['addr'])
         except Exception as e:          # noqa: BLE001
             return 'err ' + type(e).__name__
     finally:
@@ -1484,10 +1588,15 @@ def parse_impl(M, case):
     out = []
     for ep in eps:
         args = ','.join('%s=%s' % (hexs(k), 'T' if v is True else 's' + hexs(v)) for k, v in ep.dbus_args.items()) or '-'
-        if hasattr(ep, '_path'):
-            out.append('U:%s:%s' % (hexs(ep._path), args))
+        nu, nt = len(reactor.unixClients), len(reactor.tcpClients)
+        from twisted.internet.protocol import Factory
+        ep.connect(Factory())
+        if len(reactor.unixClients) > nu:
+            out.append('U:%s:%s' % (hexs(reactor.unixClients[-1][0]), args))
+        elif len(reactor.tcpClients) > nt:
+            out.append('T:%s:%d:%s' % (hexs(reactor.tcpClients[-1][0]), reactor.tcpClients[-1][1], args))
         else:
-            out.append('T:%s:%d:%s' % (hexs(ep._host), ep._port, args))
+            raise Reach('an endpoint connected to neither a unix nor a tcp address')
     return 'ok %d%s' % (len(out), ''.join(' ' + o for o in out))
 
 
@@ -1514,13 +1623,24 @@ def check_scenarios(ctx, M, stream, scenarios, use_model=True):
         if run.at_loss is not None:
             ctx.stat('life:loss-with-calls=%d' % min(len(run.at_loss['outstanding']), 6))
             ctx.stat('life:loss-with-proxies=%d' % min(len(run.at_loss['proxies']), 4))
+        if run.reach is not None:
+            # the harness could not reach an internal it wanted to look at: its own problem, never a verdict
+            ctx.stat('life:harness-reach-problem')
+            if not getattr(ctx, '_c09_reach_noted', False):
+                ctx._c09_reach_noted = True
+                ctx.note('ADVISORY: harness could not reach an internal of txdbus (%s); affected scenarios are skipped' % run.reach)
+            continue
+        if run.unexpected and not use_model:
+            ctx.stat('life:extended-scenario-not-executable')
+            continue
         if run.unexpected:
             # the harness could not drive the scenario as designed: never a verdict on the code by itself
             ctx.disagree(stream, sc, 'scenario not executable', run.unexpected[:3])
             continue
         m = model_view(out[k]) if out is not None else None
         impl = impl_view(run)
-        if m is not None and canon_view(m) != canon_view(impl):
+        thr = run.loss_thresholds
+        if m is not None and canon_view(mask_unreachable(m, impl), thr) != canon_view(impl, thr):
             ctx.disagree(stream, sc, m, impl)
         for key, what, observed, expected in judge(run, sc):
             ctx.violation(key, what, inp=sc, observed=observed, expected=expected)
